@@ -12,6 +12,29 @@ thread_local! {
 }
 
 static ACTIVE: AtomicBool = AtomicBool::new(false);
+/// debugging aid (EBV_ALLOC_TRACE=<bytes>): print a backtrace for every allocation of at least that many bytes
+static TRACE_AT: std::sync::atomic::AtomicUsize = std::sync::atomic::AtomicUsize::new(usize::MAX);
+thread_local! {
+    static IN_TRACE: Cell<bool> = const { Cell::new(false) };
+}
+
+pub fn trace_from_env() {
+    if let Some(n) = std::env::var("EBV_ALLOC_TRACE").ok().and_then(|x| x.parse::<usize>().ok()) {
+        TRACE_AT.store(n, Ordering::Relaxed);
+    }
+}
+
+fn trace(single: usize) {
+    if single >= TRACE_AT.load(Ordering::Relaxed) {
+        let _ = IN_TRACE.try_with(|f| {
+            if !f.get() {
+                f.set(true);
+                eprintln!("ALLOC {} bytes at\n{}", single, std::backtrace::Backtrace::force_capture());
+                f.set(false);
+            }
+        });
+    }
+}
 
 pub struct CountingAlloc;
 
@@ -28,6 +51,7 @@ fn add(n: isize, single: usize) {
         });
     });
     if single > 0 {
+        trace(single);
         let _ = LARGEST.try_with(|m| {
             if single > m.get() {
                 m.set(single);
